@@ -18,7 +18,7 @@ from ..core import Ctx
 
 _N = [0]
 KINDS = ["single", "optional", "variadic"]
-CONSTRS = [["any"], ["eq", 1], ["var", "T"], ["rvar", "R"]]
+CONSTRS = [["any"], ["eq", 1], ["var", "T"], ["rvar", "R"], ["ivar", "N"]]
 
 
 def toks():
@@ -40,10 +40,15 @@ def make_class(d: dict[str, Any]):
     from xdsl.irdl import RangeOf, RangeVarConstraint
 
     rvar = RangeVarConstraint("R", RangeOf(AnyAttr()))
+    from xdsl.irdl import AnyInt, IntVarConstraint
+
+    ivar = RangeOf(AnyAttr()).of_length(IntVarConstraint("N", AnyInt()))
 
     def constr(c):
         if c[0] == "rvar":
             return rvar
+        if c[0] == "ivar":
+            return ivar
         if c[0] == "any":
             return AnyAttr()
         if c[0] == "eq":
@@ -210,8 +215,8 @@ def gen_defs(rng, exhaustive_small: bool):
             for kinds in itertools.product(KINDS, repeat=n):
                 if with_c:
                     for cs in itertools.product(range(len(CONSTRS)), repeat=n):
-                        if any(CONSTRS[c][0] == "rvar" and k != "variadic" for k, c in zip(kinds, cs)):
-                            continue   # a range variable constrains a whole variadic segment
+                        if any(CONSTRS[c][0] in ("rvar", "ivar") and k != "variadic" for k, c in zip(kinds, cs)):
+                            continue   # a range / length variable constrains a whole variadic segment
                         yield [{"kind": k, "c": CONSTRS[c]} for k, c in zip(kinds, cs)]
                 else:
                     yield [{"kind": k, "c": ["any"]} for k in kinds]
@@ -245,6 +250,16 @@ def gen_insts(rng, d, n: int):
                 return 0, []                       # missing array
             if mode < 0.16:
                 return 1, [rng.randint(0, 2) for _ in range(max(0, k + rng.choice([-1, 1])))]   # wrong number of entries
+            if mode < 0.30 and k > 1:
+                # near miss: a composition of total with an amount moved from one entry to another (sum kept; entries may become
+                # negative or exceed what their kind allows)
+                cuts = sorted(rng.randint(0, total) for _ in range(k - 1))
+                parts = [b - a for a, b in zip([0] + cuts, cuts + [total])]
+                i, j = rng.sample(range(k), 2)
+                amt = rng.choice([1, 1, 2, 3])
+                parts[i] -= amt
+                parts[j] += amt
+                return 1, parts
             if mode < 0.55 and k > 0:
                 # a composition of total into k parts (often valid)
                 cuts = sorted(rng.randint(0, total) for _ in range(k - 1))
@@ -366,14 +381,18 @@ def build_via_constructor(rng, cls, d, ext):
     bind = {"T": rng.choice([1, 2]), "U": rng.choice([1, 2])}
 
     def tok_for(c):
-        return rng.choice([1, 2, 3]) if c[0] in ("any", "rvar") else (c[1] if c[0] == "eq" else bind[c[1]])
+        return rng.choice([1, 2, 3]) if c[0] in ("any", "rvar", "ivar") else (c[1] if c[0] == "eq" else bind[c[1]])
 
     r_seq = [rng.choice([1, 2, 3]) for _ in range(rng.randint(0, 2))]   # the one value of range variable R
 
+    any_r = any(x["c"][0] == "rvar" for x in d["ops"] + d["res"])
+    n_len = len(r_seq) if any_r else rng.randint(0, 2)     # the one value of the length variable N
+
     def seg_sizes(segs, opt):
         has_r = any(s["c"][0] == "rvar" for s in segs)
-        same = len(r_seq) if has_r else (rng.choice([0, 1]) if any(s["kind"] == "optional" for s in segs) else rng.randint(0, 2))
-        if has_r and opt == "same" and any(s["kind"] == "optional" for s in segs) and same > 1:
+        has_n = any(s["c"][0] == "ivar" for s in segs)
+        same = len(r_seq) if has_r else n_len if has_n else (rng.choice([0, 1]) if any(s["kind"] == "optional" for s in segs) else rng.randint(0, 2))
+        if (has_r or has_n) and opt == "same" and any(s["kind"] == "optional" for s in segs) and same > 1:
             return None
         out = []
         for s in segs:
@@ -381,6 +400,8 @@ def build_via_constructor(rng, cls, d, ext):
                 out.append(1)
             elif s["c"][0] == "rvar":
                 out.append(len(r_seq))
+            elif s["c"][0] == "ivar":
+                out.append(n_len)
             elif opt == "same":
                 out.append(same)
             elif s["kind"] == "optional":
